@@ -214,6 +214,57 @@ theorem nchangeState_mono (hC : NoCmds sc) (scope : Scope) (hsc : ScopeOK scope)
     intro _ s1
     exact (enterAll_mono hC x r.enters { s1 with conf := r.tree }).congr rfl
 
+theorem nfinalLoop_no_oof (E : List SPath) : ∀ (f : Forest) (sc' : Scope) (cbs : List (List Nat)) (all : Bool),
+    nfinalLoop E sc' f cbs all ≠ .oof := by
+  intro f
+  induction f with
+  | nil => intro sc' cbs all; unfold nfinalLoop; intro h; cases h
+  | cons k sub' rest ih1 ih2 =>
+    intro sc' cbs all
+    unfold nfinalLoop
+    split
+    · intro h; cases h
+    · rename_i inner _
+      cases hr : nfinalLoop E inner sub' [] true with
+      | oof => exact absurd hr (ih1 _ _ _)
+      | err e => intro h; cases h
+      | ok r => simp only [PR.bind]; exact ih2 _ _ _
+
+theorem nfinalCheckRoot_no_oof (tree : Forest) (E : List SPath) : nfinalCheckRoot cfg tree E ≠ .oof := by
+  unfold nfinalCheckRoot
+  cases hr : nfinalLoop E cfg.root tree [] true with
+  | oof => exact absurd hr (nfinalLoop_no_oof E _ _ _ _)
+  | err e => intro h; cases h
+  | ok r =>
+    simp only [PR.bind]
+    split
+    · intro h; cases h
+    · split
+      · split
+        · intro h; cases h
+        · split
+          · intro h; cases h
+          · intro h; cases h
+      · intro h; cases h
+
+/-- the tail of `_change_state` (the on_final lists) -/
+theorem nfinalStage_mono (hC : NoCmds sc) (scope : Scope) (x : Ctx) (dest : Option SPath) (conf0 : Forest) (s : NSt) :
+    Mono (nfinalStage sub sc cfg scope x dest conf0 s) s := by
+  unfold nfinalStage
+  cases dest with
+  | none => exact Mono.ok () s
+  | some d =>
+    simp only []
+    cases resolveTransition cfg.root scope conf0 d with
+    | err e => exact Mono.ok () s
+    | oof => exact Mono.ok () s
+    | ok r =>
+      simp only []
+      cases hf : nfinalCheckRoot cfg r.tree (r.enters.map (·.path)) with
+      | ok cbs => exact ncallbacks_mono hC _ x _ s
+      | err e => exact Mono.err e s
+      | oof => exact absurd hf (nfinalCheckRoot_no_oof (cfg := cfg) _ _)
+
 theorem nexecute_mono (hC : NoCmds sc) (scope : Scope) (hsc : ScopeOK scope) (x : Ctx) (tr : TRef) (t : NTrans)
     (s : NSt) : Mono (nexecute sub sc cfg scope x tr t s) s := by
   unfold nexecute
@@ -232,6 +283,8 @@ theorem nexecute_mono (hC : NoCmds sc) (scope : Scope) (hsc : ScopeOK scope) (x 
       · exact nchangeState_mono hC scope hsc x _ s4
       · exact Mono.ok () s4
     · intro _ s5
+      refine Mono.bind (nfinalStage_mono hC scope x _ _ s5) ?_
+      intro _ s5
       refine Mono.bind (ncallbacks_mono hC _ x _ s5) ?_
       intro _ s6
       refine Mono.bind (ncallbacks_mono hC _ x _ s6) ?_
@@ -353,6 +406,7 @@ def nexecTail (sub : NSub) (sc : Script) (cfg : NCfg) (scope : Scope) (x : Ctx) 
   (match t.dest with
     | some d => nchangeState sub sc cfg scope x d s4
     | none => .ok () s4).bind fun _ s5 =>
+  (nfinalStage sub sc cfg scope x t.dest s4.conf s5).bind fun _ s5 =>
   (ncallbacks sub sc cfg .after x t.after s5).bind fun _ s6 =>
   (ncallbacks sub sc cfg .afterSC x cfg.afterSC s6).bind fun _ s7 =>
     .ok true s7
@@ -367,6 +421,8 @@ theorem nexecTail_mono (hC : NoCmds sc) (scope : Scope) (hsc : ScopeOK scope) (x
     · exact nchangeState_mono hC scope hsc x _ s4
     · exact Mono.ok () s4
   · intro _ s5
+    refine Mono.bind (nfinalStage_mono hC scope x _ _ s5) ?_
+    intro _ s5
     refine Mono.bind (ncallbacks_mono hC _ x _ s5) ?_
     intro _ s6
     refine Mono.bind (ncallbacks_mono hC _ x _ s6) ?_
